@@ -127,6 +127,7 @@ type pathDef struct {
 	get       bool               // DoH GET instead of POST
 	tls       bool               // stream: DoT instead of TCP
 	pipelined int                // stream: queries written back to back per burst
+	framing   string             // DoH POST: "" (sized), "unsized" (streamed body without a declared length), "raw-chunked" (hand-written HTTP/1.1 chunked request)
 	halfClose bool               // stream: the client half-closes right after writing a burst of 1…pipelined queries
 	thorough  bool               // only in the thorough tier
 }
@@ -145,6 +146,11 @@ var allPaths = []*pathDef{
 	{name: "doh-h1-post", family: famDoH, variant: tbench.HTTP1TLS},
 	{name: "doh-plain-get", family: famDoH, variant: tbench.HTTPPlain, get: true},
 	{name: "doh-plain-post", family: famDoH, variant: tbench.HTTPPlain},
+	{name: "doh-h2-post-unsized", family: famDoH, variant: tbench.HTTP2, framing: "unsized"},
+	{name: "doh-h1-post-chunked", family: famDoH, variant: tbench.HTTP1TLS, framing: "unsized"},
+	{name: "doh-h1-post-chunked-raw", family: famDoH, variant: tbench.HTTP1TLS, framing: "raw-chunked"},
+	{name: "doh-plain-post-chunked-raw", family: famDoH, variant: tbench.HTTPPlain, framing: "raw-chunked"},
+	{name: "doh-h3-post-unsized", family: famDoH, variant: tbench.HTTP3, framing: "unsized", thorough: true},
 	{name: "doh-h3-get", family: famDoH, variant: tbench.HTTP3, get: true, thorough: true},
 	{name: "doh-h3-post", family: famDoH, variant: tbench.HTTP3, thorough: true},
 	{name: "json-h2", family: famJSON, variant: tbench.HTTP2},
